@@ -171,6 +171,43 @@ Shapes == <<
   Sh("identifiers-odd", {"identifiers", "identifiers-odd"}, <<RF([i \in DOMAIN OddWords |-> FOpt(OddWords[i], S0)])>>),
   Sh("identifiers-required-typed", {"identifiers", "identifiers-prefixed"}, <<RF(<<F("_class", I0), F("$from", TBool), F("__import", TArr(S0)), F("def", TRef("Child")),
       F("type", TMap(S0)), F("1st", S0), F("a-b", I0), FDef("_lambda", S0, JStr("x")), FOpt("$ref", E2)>>), Child>>),
+  \* ---- audit of notes/MUTATION_CLASSES.md: falsy defaults (5), one type reused in every mode (6), width boundaries (7), depth 3 (8),
+  \* alias chains of 2 and 3 hops (13), enums whose first member is not representative (4)
+  Sh("default-falsy", {"default"}, <<RF(<<FDef("s", S0, JStr("")), FDef("i", I0, JInt(0)), FDef("n", N0, JNum(0)), FDef("b", TBool, JBool(FALSE)),
+      FDef("a", TArr(S0), JArr(<<>>)), FDef("m", TMap(S0), JObj(<<>>)), Fld("os", S0, FALSE, FALSE, JStr("")), Fld("oi", I0, FALSE, FALSE, JInt(0)),
+      Fld("ob", TBool, FALSE, FALSE, JBool(FALSE)), Fld("oe", E2, FALSE, FALSE, JStr("a"))>>)>>),
+  Sh("default-int-widths", {"default", "default-int"}, <<RF(<<FDef("i8", TInt("int8", NoB, NoB), JInt(127)), FDef("ni8", TInt("int8", NoB, NoB), JInt(-128)),
+      FDef("u8", TInt("uint8", NoB, NoB), JInt(255)), FDef("i16", TInt("int16", NoB, NoB), JInt(32767)), FDef("u16", TInt("uint16", NoB, NoB), JInt(65535)),
+      FDef("i32", TInt("int32", NoB, NoB), JInt(214748364)), FDef("i64", I0, JInt(-214748364))>>)>>),
+  Sh("optional-reuse-modes", {"optional", "nullable", "ref", "dunion", "union-scalars"}, <<RF(<<
+      F("r", TRef("Child")), FOpt("o", TRef("Child")), FNull("n", TRef("Child")), FOptNull("on", TRef("Child")), F("r2", TRef("Child")),
+      F("du", DU), FOpt("odu", DU), F("u", TUnion(<<S0, I0>>)), FOpt("ou", TUnion(<<S0, I0>>)), F("e", TRef("Color")), FOpt("oe", TRef("Color")),
+      FNull("ne", TRef("Color")), F("ar", TArr(TNullable(TRef("Child")))), FOpt("oar", TArr(TRef("Child")))>>), Child, DA, DB, Def("Color", TEnum(<<"red", "green">>))>>),
+  Sh("array-of-depth-3", {"array", "map"}, <<RF(<<F("aaa", TArr(TArr(TArr(S0)))), F("mmm", TMap(TMap(TMap(I0)))), F("ama", TArr(TMap(TArr(TRef("Child"))))),
+      FOpt("oaaa", TArr(TArr(TArr(TRef("Child")))))>>), Child>>),
+  Sh("alias-chains", {"ref", "alias"}, <<RF(<<F("s3", TRef("S3")), F("c3", TRef("C3")), F("e2", TRef("E2a")), FOpt("os3", TRef("S3")), F("l2", TRef("L2")),
+      FDef("ds2", TRef("S2"), JStr("x"))>>), Child, Def("S1", TStr(1, -1)), Def("S2", TRef("S1")), Def("S3", TRef("S2")), Def("C1", TRef("Child")),
+      Def("C2", TRef("C1")), Def("C3", TRef("C2")), Def("E1", TEnum(<<"a", "b">>)), Def("E2a", TRef("E1")), Def("L1", TArr(TRef("C1"))), Def("L2", TRef("L1"))>>),
+  Sh("enum-mixed-members", {"enum-str"}, <<RF(<<F("e", TEnum(<<"1x", "b", "a-b", "B">>)), FOpt("oe", TEnum(<<"b", "1x">>)), F("re", TRef("Mixed"))>>),
+      Def("Mixed", TEnum(<<"2nd", "first", "third one">>))>>),
+  \* ---- named scalars / enums / collections that carry constraints, referenced in every mode and from collections (audit 13 / 6)
+  Sh("alias-constrained", {"ref", "alias", "bounds"}, <<RF(<<
+      F("lv", TRef("Level")), FOpt("olv", TRef("Level")), FNull("nlv", TRef("Level")), FOptNull("onlv", TRef("Level")),
+      F("nm", TRef("Name")), FOpt("onm", TRef("Name")), FOpt("ort", TRef("Ratio")), F("alv", TArr(TRef("Level"))), F("mnm", TMap(TRef("Name"))),
+      FOpt("oalv", TArr(TRef("Level"))), FOpt("ocl", TRef("Color")), FOpt("otags", TRef("Tags")), FDef("dlv", TRef("Level"), JInt(2))>>),
+      Def("Level", TInt("int64", Ge(1), Le(5))), Def("Name", TStr(1, 9)), Def("Ratio", TNum("float64", Gt(0), NoB)),
+      Def("Color", TEnum(<<"red", "green">>)), Def("Tags", TArr(TStr(1, -1)))>>),
+  \* ---- a struct-valued default that gives only SOME fields of the referred struct, the missing ones being references themselves
+  Sh("default-struct-partial", {"default", "ref"}, <<RF(<<FDef("w", TRef("Wrapper"), JObj(<<P("label", JStr("x"))>>)),
+      Fld("ow", TRef("Wrapper"), FALSE, FALSE, JObj(<<P("label", JStr("y"))>>)), F("plain", TRef("Wrapper"))>>),
+      Def("Wrapper", TStruct(<<F("label", S0), F("nested", TRef("Nested")), FOpt("onested", TRef("Nested")), F("kids", TArr(TRef("Nested"))),
+                               F("color", TRef("Color"))>>)),
+      Def("Nested", TStruct(<<F("n", I0)>>)), Def("Color", TEnum(<<"red", "green">>))>>),
+  \* ---- unions of scalars WITH collection, enum and any branches
+  Sh("union-scalars-collections", {"union-scalars", "map", "array"}, <<RF(<<
+      F("sm", TUnion(<<S0, TMap(S0)>>)), F("sa", TUnion(<<S0, TArr(S0)>>)), FOpt("ima", TUnion(<<I0, TMap(I0), TArr(S0)>>)),
+      F("bm", TUnion(<<TBool, TMap(TBool)>>)), FOpt("se", TUnion(<<E2, I0>>)), F("san", TUnion(<<S0, TArr(TAny)>>)),
+      F("am", TArr(TUnion(<<S0, TMap(S0)>>)))>>)>>),
   \* ---- date-time, any
   Sh("time", {"time"}, <<RF(<<F("t", TTime), FOpt("ot", TTime), F("at", TArr(TTime)), F("mt", TMap(TTime))>>)>>),
   Sh("any", {"any"}, <<RF(<<F("an", TAny), FOpt("oan", TAny), F("aan", TArr(TAny)), F("man", TMap(TAny))>>)>>),
